@@ -328,6 +328,47 @@ K['k15_uncoalesced_64_lines_per_load'] = PRO + """
   s_endpgm
 """
 
+# platform-level kernel (launched through the driver, not in the CU world): 3-D work-groups of 4 x 4 x Z, one
+# work-group; out[z*16 + y*4 + x] = x | y << 8 | z << 16 from the hardware-initialised work-item ids v0, v1, v2
+K['p1_workitem_ids_3d_4x4xZ'] = """
+  s_load_dwordx2 s[4:5], s[0:1], 0x8
+  v_lshlrev_b32 v3, 2, v1
+  v_add_u32 v3, vcc, v3, v0
+  v_lshlrev_b32 v4, 4, v2
+  v_add_u32 v3, vcc, v3, v4
+  v_lshlrev_b32 v3, 2, v3
+  v_lshlrev_b32 v5, 8, v1
+  v_or_b32 v5, v5, v0
+  v_lshlrev_b32 v6, 16, v2
+  v_or_b32 v5, v5, v6
+  s_waitcnt lgkmcnt(0)
+  v_add_u32 v7, vcc, s4, v3
+  v_mov_b32 v8, s5
+  v_addc_u32 v8, vcc, 0, v8, vcc
+  flat_store_dword v[7:8], v5
+  s_waitcnt vmcnt(0)
+  s_endpgm
+"""
+
+K['k16_vcc_pair_then_vcc_halves'] = PRO + """
+  s_mov_b32 s20, 0x11111111
+  s_mov_b32 s21, 0x22222222
+  s_mov_b64 vcc, s[20:21]
+  s_mov_b32 vcc_lo, 0x44444444
+  s_mov_b64 s[22:23], vcc
+  s_mov_b32 vcc_hi, 0x08080808
+  s_mov_b64 s[24:25], vcc
+  s_xor_b32 s26, s22, s23
+  s_xor_b32 s26, s26, s24
+  s_add_u32 s26, s26, s25
+  s_waitcnt lgkmcnt(0)
+  v_add_u32 v6, vcc, s26, v0
+""" + gaddr('v7','v8','s4','s5') + """
+  flat_store_dword v[7:8], v6
+  s_waitcnt vmcnt(0)
+  s_endpgm
+"""
+
 def assemble(name, src, mcpu='gfx803'):
     p = subprocess.run(['llvm-mc-14', '-arch=amdgcn', '-mcpu=' + mcpu, '-show-encoding'], input=src, capture_output=True, text=True)
     if p.returncode != 0 or 'error' in p.stderr:
